@@ -486,6 +486,17 @@ def pred_run_directions(seed: int) -> tuple[str, str] | None:
     _, err = call(h.run, c)
     if err:
         return ("run:raises", f"run raised {err} (seed {seed})")
+    # the sampler uses ONE search object for all candidates of a connection attempt: a second search on the same
+    # object, started well inside the box after the first one ended on (or near) the wall, and sometimes a third one
+    # from a face again.  Nothing the earlier search left behind may constrain these directions.
+    second = random.Random(seed + 77)
+    for again in range(second.choice([0, 1, 1, 2])):
+        x1 = cpt + np.array([second.uniform(-0.2, 0.2) for _ in range(d)])
+        x1[wall] = second.uniform(0.3, 0.8) if again == 0 else second.choice([0.0, second.uniform(0.2, 0.5)])
+        c.position = np.clip(x1, [b[0] for b in bounds], [b[1] for b in bounds])
+        _, err = call(h.run, c)
+        if err:
+            return ("run:raises", f"search {again + 2} on the same object raised {err} (seed {seed})")
     w, U = np.linalg.eigh(A)
     lob, upb = np.array([b[0] for b in bounds]), np.array([b[1] for b in bounds])
     for n_call, (at, (v, ev, _nit)) in enumerate(log):
